@@ -91,25 +91,23 @@ theorem schema_tags_ok : ∀ top ∈ Gen.Schema.all, Proof.C16.tagsOK top.ty = t
   have h : tagsCheck = true := by decide +kernel
   simpa [tagsCheck, List.all_eq_true] using h
 
-/-! ### Time: the tag-count loop (DESIGN §8-i) — recorded, not part of C16's text -/
+/-! ### Time: the tag-count loop (DESIGN §8-i, repaired in /repo 994d56c) -/
 
-/-- The loop of `internalReadTags` / `ReadTags` / `SkipTags` runs exactly as many iterations as the count it read, whatever
-follows: -/
-theorem tag_loop_steps_eq_count (n : Nat) (hn : n < 4294967296) (rest : Bytes) : steps (encUvarint n ++ rest) = n :=
-  Proof.C16.steps_eq_count n hn rest
+/-- **`steps(decode b) ≤ |b| + 1`**: the loop of `internalReadTags` / `ReadTags` / `SkipTags`, as the code runs it (count taken
+from the input, `b.Ok()` tested before every iteration), runs at most one iteration more than there are input bytes. (Before
+994d56c the loop had no `b.Ok()` test: five input bytes made it run 2^32 − 1 iterations; this theorem did not hold and the
+check recorded such inputs as `hang`.) -/
+theorem tag_loop_steps_linear (src : Bytes) : steps src ≤ src.length + 1 :=
+  Proof.C16.steps_linear src
 
-/-- **`steps(decode b) ≤ c·|b|` is false**: five input bytes make the loop run 2^32 − 1 iterations (no panic, constant memory). -/
-theorem tag_loop_steps_unbounded : ¬ ∀ src : Bytes, steps src ≤ 1000000 * src.length := by
-  intro h
-  have h1 := h (encUvarint 4294967295 ++ [])
-  rw [tag_loop_steps_eq_count 4294967295 (by decide) []] at h1
-  have : (encUvarint 4294967295 ++ ([] : Bytes)).length = 5 := by decide
-  rw [this] at h1
-  omega
+/-- the same bound from any point of the loop: iterations still to run ≤ remaining bytes + 1, and none on an invalidated reader -/
+theorem tag_loop_steps_le (n : Nat) (b : Reader) (t : List (Nat × Bytes)) (s : Nat) :
+    (tagLoop n b t s).2.2 ≤ s + (if b.bad then 0 else b.src.length + 1) :=
+  Proof.C16.tagLoop_steps_le n b t s
 
-/-- Once a read has failed the reader stays invalidated to the end of the loop: the outcome is an error … -/
-theorem bad_reader_stays_bad (n : Nat) (b : Reader) (t : List (Nat × Bytes)) (s : Nat) (h : b.bad = true) :
-    (tagLoop n b t s).2.1.bad = true := Proof.C16.tagLoop_bad n b t s h
+/-- Once a read has failed the loop ends at its next test: the reader stays invalidated and the outcome is an error … -/
+theorem bad_reader_ends_loop (n : Nat) (b : Reader) (t : List (Nat × Bytes)) (s : Nat) (h : b.bad = true) :
+    tagLoop n b t s = (t, b, s) := Proof.C16.tagLoop_bad n b t s h
 
 /-- … which is why the model may end a decode at the first failed read: the loop as the code runs it and `readRawTags` agree. -/
 theorem early_exit_justified (n : Nat) (src : Bytes) :
@@ -123,15 +121,15 @@ theorem early_exit_justified (n : Nat) (src : Bytes) :
 
 /-! ### Non-vacuity -/
 
-/-- a well-formed 3-byte flexible message decodes; a count of 2^32−1 with nothing behind it is an error whose `spin` is the count -/
+/-- a well-formed 3-byte flexible message decodes -/
 example : decTop { name := "T", kind := "req", key := 0, maxVersion := 1, withVersion := false, raw := none,
                    ty := .struct false (some 0) (.cons "A" 0 none none .none (.prim .int16) .nil) } 0 [0, 7, 0]
           = .ok (.stru (.cons (.int 7) .nil) []) [] := by
   simp [decTop, dec, structPre, decFields, present, flexAt, decPrim, readInt, readBE, span, goSplit, ofBE, fromU, m16,
     readUvarint, uvDec, readTagsOf, readRawTags, knownTags, applyTags, unknownOf]
 
-example : steps [0xff, 0xff, 0xff, 0xff, 0x0f] = 4294967295 :=
-  tag_loop_steps_eq_count 4294967295 (by decide) []
+/-- the former witness of the unbounded loop: a tag count of 2^32 − 1 with nothing behind it now costs at most 6 iterations -/
+example : steps [0xff, 0xff, 0xff, 0xff, 0x0f] ≤ 6 := tag_loop_steps_linear _
 
 example : ∃ l r, decArrLen true .normal [3, 1, 2] = .ok l r ∧ l = 2 := by
   refine ⟨2, [1, 2], ?_, rfl⟩
